@@ -8,7 +8,7 @@ WT=/tmp/benign_wt
 export GOFLAGS=-mod=mod GOPROXY=off GOSUMDB=off GOTOOLCHAIN=local; unset GOWORK
 BIN=${TEMPLVET:-/verif/bin/templvet}
 git -C /repo worktree remove --force $WT 2>/dev/null
-git -C /repo worktree add -q --detach $WT ${BENIGN_BASE:-77c6893} || exit 2
+git -C /repo worktree add -q --detach $WT ${BENIGN_BASE:-b06834a} || exit 2
 mkdir -p /tmp/benign_verif; cp /verif/known_findings.json /tmp/benign_verif/
 n=0; bad=0; nopen=0
 for d in benign/${1:-}*${BENIGN_SUFFIX:-}*/; do
